@@ -121,6 +121,20 @@ pub fn build(c: &Case, root: &[u8]) -> (Vec<Ent>, Inv, Vec<Vec<u8>>) {
             }
         }
     }
+    // a FIFO left in the destination (by an earlier copy of an older tree) exactly where a regular file must go now
+    if c.shape == 0 && c.big.is_none() && c.run.seed % 13 == 1 {
+        if let Some(f) = ents.iter().find(|e| matches!(e.kind, Kind::File(_)) && e.path.starts_with(b"s/")).map(|e| e.path.clone()) {
+            let mut p = b"d".to_vec();
+            for comp in f.split(|c| *c == b'/') {
+                let parent_done = p.clone();
+                if !ents.iter().any(|e| e.path == parent_done) {
+                    ents.push(Ent::dir(&parent_done));
+                }
+                p = join(&p, comp);
+            }
+            ents.push(Ent::new(&p, Kind::Fifo));
+        }
+    }
     if c.gitignore > 0 && c.shape == 0 {
         inv.gitignore = true;
         match c.gitignore {
@@ -263,6 +277,9 @@ pub fn judge(c: &Case, rec: &mut Rec) -> Verdict {
     let others_busy = fired.first().map(|f| out.log.iter().any(|e| e.th != f.th && e.t_in > f.t_in && e.path.as_ref().map(|p| p.starts_with(&root)).unwrap_or(false))).unwrap_or(false);
     if c.gitignore > 0 && c.shape == 0 {
         rec.class(format!("gitignore-file-kind={}", ["-", "fifo", "socket", "regular"][c.gitignore as usize % 4]));
+    }
+    if c.shape == 0 && c.big.is_none() && c.run.seed % 13 == 1 {
+        rec.class("fifo-in-destination-where-a-file-goes".to_string());
     }
     if c.block == Some(0) {
         rec.class(format!("block-size=0|{}", if c.run.parblock { "parblock" } else { "parfile" }));
@@ -450,7 +467,7 @@ impl Check for C07 {
         "C07"
     }
     fn rule(&self) -> String {
-        "proptest-generated (tree of 0-23 entries with links, optionally 1-2 FIFOs/sockets inside; or a FIFO / a socket / an empty directory / an empty file as the sole source) x (driver, workers incl. 1, 2, 64, schedule kind, seed, priority change points) x --block-size absent/1024/4096/0 x (one case in eleven) --gitignore with the source root's .gitignore being a FIFO / a socket / an empty file x optional single fault: a recording run enumerates the fault points (C04's errno table) and one is failed in the judged run, which executes under the ptrace priority scheduler with a 20 s limit (>= 200x a normal run). Oracle: the process exits; a run over the limit is re-run once under 60 s and counts as a violation only if it is over again AND the supervisor names the state - deadlock (every live thread inside a blocking call, none held by the scheduler) or spin (> 100x the fault-free call count, or the last 2000 recorded calls are <= 8 distinct (thread, call, path) combinations out of >= 20000, or >= 12 s of CPU time with nobody held); otherwise the case is inconclusive. Independently any open() of a FIFO/socket source is a violation (never opened and read). Sub-check 'plan' runs C05's fault plans (short counts, copy_file_range/FICLONE/FIEMAP unavailable, EINTR) under the same hang oracle; 'big' puts 200-700 files behind a FIFO whose destination is a directory (1-4 workers) so that bounded queues lose their consumers; 'apibig' runs the library-client probe on 600-3000 files with every 7th/10th/50th destination pre-created as a directory. The 'api' sub-check runs the library-client probe (copy on a thread, documented receiver loop) under schedules and faults: copy() must return and the stream must end. Non-trivial: a fault fired in a non-main thread while another thread still had work, or special files / empty inputs present; distinct by case hash.".into()
+        "proptest-generated (tree of 0-23 entries with links, optionally 1-2 FIFOs/sockets inside; or a FIFO / a socket / an empty directory / an empty file as the sole source) x (driver, workers incl. 1, 2, 64, schedule kind, seed, priority change points) x --block-size absent/1024/4096/0 x (one case in eleven) --gitignore with the source root's .gitignore being a FIFO / a socket / an empty file x (one case in thirteen) a FIFO sitting in the destination exactly where a regular file must go x optional single fault: a recording run enumerates the fault points (C04's errno table) and one is failed in the judged run, which executes under the ptrace priority scheduler with a 20 s limit (>= 200x a normal run). Oracle: the process exits; a run over the limit is re-run once under 60 s and counts as a violation only if it is over again AND the supervisor names the state - deadlock (every live thread inside a blocking call, none held by the scheduler) or spin (> 100x the fault-free call count, or the last 2000 recorded calls are <= 8 distinct (thread, call, path) combinations out of >= 20000, or >= 12 s of CPU time with nobody held); otherwise the case is inconclusive. Independently any open() of a FIFO/socket source is a violation (never opened and read). Sub-check 'plan' runs C05's fault plans (short counts, copy_file_range/FICLONE/FIEMAP unavailable, EINTR) under the same hang oracle; 'big' puts 200-700 files behind a FIFO whose destination is a directory (1-4 workers) so that bounded queues lose their consumers; 'apibig' runs the library-client probe on 600-3000 files with every 7th/10th/50th destination pre-created as a directory. The 'api' sub-check runs the library-client probe (copy on a thread, documented receiver loop) under schedules and faults: copy() must return and the stream must end. Non-trivial: a fault fired in a non-main thread while another thread still had work, or special files / empty inputs present; distinct by case hash.".into()
     }
     fn assumptions(&self) -> Vec<String> {
         vec!["liveness is bounded-time evidence; scheduler holds are finite (200 ms safety valve), so the instrument cannot cause the hang it reports".into()]
@@ -506,6 +523,6 @@ impl Check for C07 {
         }
     }
     fn required_classes(&self, _tier: Tier) -> Vec<String> {
-        ["fifo-source", "socket-source", "empty-dir", "empty-file", "|w64|", "|w1|", "|worker|", "|walker|", "|dispatcher|", "api|parblock", "api|parfile|channel", "big-tree", "plan|cfr-errno38", "plan|clamp-cfr", "apibig|parfile", "apibig|parblock", "gitignore-file-kind=fifo", "block-size=0|parfile", "block-size=0|parblock"].iter().map(|s| s.to_string()).collect()
+        ["fifo-source", "socket-source", "empty-dir", "empty-file", "|w64|", "|w1|", "|worker|", "|walker|", "|dispatcher|", "api|parblock", "api|parfile|channel", "big-tree", "plan|cfr-errno38", "plan|clamp-cfr", "apibig|parfile", "apibig|parblock", "gitignore-file-kind=fifo", "block-size=0|parfile", "block-size=0|parblock", "fifo-in-destination-where-a-file-goes"].iter().map(|s| s.to_string()).collect()
     }
 }
